@@ -194,7 +194,9 @@ SAME_SHAPES = ["method-only", "field", "self"]
 def same_name_program(s1, s2, shape, order):
     """two declarations of `class K` in scopes s1 != s2; order = sequence over (1, 2) of which scope is exercised -> (source, expected lines)"""
     lines, runs = [], {}
+    shapes = shape.split("+") if "+" in shape else [shape, shape]
     for i, sc in ((1, s1), (2, s2)):
+        shape = shapes[i - 1]
         tag = 100 * i
         if sc == "module":
             c, mk, exp = _cls(tag, shape, 0)
@@ -270,12 +272,15 @@ class C08(EHistCheck):
             viol.append({"sig": {"kind": "same-named-classes", "scopes": f"{case[1]},{case[2]}", "shape": case[3]},
                          "what": f"class K declared in {case[1]} and in {case[2]} ({case[3]}), exercised in order {SAME_ORDERS[case[4]]}: expected {exp}, got exit {res.exit} and {res.lines()} {res.err[-200:]}",
                          "detail": {"files": {"x.ms": src}, "res": res.brief(), "expected_lines": exp}})
-        return {"outcome": "same-ok" + ("-DIFF" if viol else ""), "viol": viol, "nontrivial": True, "tags": ["same", f"same-{case[3]}"]}
+        return {"outcome": "same-ok" + ("-DIFF" if viol else ""), "viol": viol, "nontrivial": True, "tags": ["same", f"same-{case[3].split('+')[0]}"]}
 
 
 def _same_cases():
-    return [("same", a, b, sh, o) for a in SAME_SCOPES for b in SAME_SCOPES if a != b and not (a == "module" and b == "module")
-            for sh in SAME_SHAPES for o in range(len(SAME_ORDERS))]
+    pairs = [(a, b) for a in SAME_SCOPES for b in SAME_SCOPES if a != b and not (a == "module" and b == "module")]
+    same = [("same", a, b, sh, o) for a, b in pairs for sh in SAME_SHAPES for o in range(len(SAME_ORDERS))]
+    # the two classes may also differ in SHAPE (one has a constructor, the other none; one has fields, the other only methods)
+    mixed = [("same", a, b, f"{x}+{y}", o) for a, b in pairs for x in SAME_SHAPES for y in SAME_SHAPES if x != y for o in (0, 1, 4)]
+    return same + mixed
 
 
 def register_corpus(register):
